@@ -83,3 +83,30 @@ def all_eq(ob, name, xs, ys, kind='shape'):
 
 def orders(lo, hi):
     return [dict(d=d) for d in range(lo, hi + 1)]
+
+
+def run_rmode(prop, tier, seed, repo):
+    """bounded stand-in: run-time contracts (icontract) on the real functions over an enumerated family (never counted as proved)"""
+    import json, os, subprocess
+    here = os.path.dirname(os.path.dirname(os.path.abspath(__file__)))
+    py = os.path.join(here, '.venv312', 'bin', 'python')
+    if not os.path.exists(py):
+        subprocess.run(['sh', os.path.join(here, 'setup.sh')], capture_output=True, text=True, timeout=600)
+    env = dict(os.environ)
+    env['PYTHONPATH'] = repo
+    env['PYTHONWARNINGS'] = 'ignore'
+    try:
+        p = subprocess.run([py, os.path.join(here, 'runtime', 'rmode.py'), prop, '--tier', tier, '--seed', str(seed), '--repo', repo],
+                           env=env, capture_output=True, text=True, timeout=3000)
+    except subprocess.TimeoutExpired:
+        return [{'name': 'rmode.%s' % prop, 'error': 'timeout', 'evaluations': 0, 'failures': []}]
+    lines = [l for l in p.stdout.splitlines() if l.startswith('RMODE-RESULT ')]
+    if not lines:
+        return [{'name': 'rmode.%s' % prop, 'error': (p.stdout + p.stderr)[-1500:], 'evaluations': 0, 'failures': []}]
+    d = json.loads(lines[-1][len('RMODE-RESULT '):])
+    d['kind'] = 'bounded run-time contracts (icontract) on the real functions; NOT counted as proved'
+    fails = d.get('failures', [])
+    d['failures'] = fails[:25]
+    d['n_failures'] = len(fails)
+    d.pop('slowest', None)
+    return [d]
